@@ -13,7 +13,8 @@ EXPLANATION = (
     "histories."
     " (h) EVERY path that ends a search on its own (stop handler, resolver timeout) purges the pending reruns inside the same per-search iteration; (i) stop forgets cached addresses under the lower-cased key."
     " (j) Every send on a ServiceEvent channel is the lossless Sender::send (a dropped ServiceFound would let ServiceResolved arrive first). (k) A follow-up Resolve asks only after a test on service_queriers, or stop purges it. (l) Cache-only browsers are recorded in a Zeroconf set at the browse handler, and every query sent inside a loop over service_queriers, and the follow-up Resolve, is guarded by that set. The keys of hostname_resolvers are folded by one function only (to_lowercase xor to_ascii_lowercase)."
-    " (m) remove_service_type removes SRV, TXT, NSEC and subtype entries under one and the same key. The stop handler's purge lower-cases the rerun's name; the cache-only marker is asked about the service type; rerun comparisons use the table's folding function.")
+    " (m) remove_service_type removes SRV, TXT, NSEC and subtype entries under one and the same key. The stop handler's purge lower-cases the rerun's name; the cache-only marker is asked about the service type; rerun comparisons use the table's folding function."
+    " (n) A fresh browse — cache-only or not — purges the earlier Browse reruns of the type on every path that replaces the searcher (shared with C19c).")
 UNDECIDED = ["order of events across packets/histories", "absence of queries 'long after the stop' as a trace property",
              "other callers of send_query* taking a cache-only listener (value-level)"]
 
